@@ -13,22 +13,28 @@ Inductive case :=
   | KStrToIndex (e : enum) (l : list string)  (* _utils._str_to_index(E, l) *)
   | KEnumToIndex (l : list member)        (* _utils._enum_to_index(l) *)
   | KArgsort (e : enum)                   (* numpy.argsort(E.names) *)
-  | KSearch (e : enum) (s : string).      (* numpy.searchsorted(E.names, s, sorter=argsort) *)
+  | KSearch (e : enum) (s : string)       (* numpy.searchsorted(E.names, s, sorter=argsort) *)
+  | KMulti (l : list (enum * input)).     (* the KRound operation on several enumerations that share their
+                                             class name, one after the other in one process; the model has
+                                             no state: every step is answered by its own enumeration *)
 
 Definition omember (m : member) : obs := OL [OZ (fst m); OZ (snd m)].
 Definition ozs (l : list Z) : obs := olist OZ l.
 
+Definition round_obs (e : enum) (x : input) : obs :=
+  match encode e x with
+  | Err k => OErr k
+  | Ok a => OL [ozs (indices a);
+                ores (olist omember) (decode a);
+                ores (olist OS) (decode_to_str a);
+                ores (fun b => ozs (indices b)) (encode e (Encoded a))]
+  end.
+
 Definition run (c : case) : obs :=
   match c with
   | KEncode e x => ores (fun a => ozs (indices a)) (encode e x)
-  | KRound e x =>
-      match encode e x with
-      | Err k => OErr k
-      | Ok a => OL [ozs (indices a);
-                    ores (olist omember) (decode a);
-                    ores (olist OS) (decode_to_str a);
-                    ores (fun b => ozs (indices b)) (encode e (Encoded a))]
-      end
+  | KRound e x => round_obs e x
+  | KMulti l => OL (map (fun p => round_obs (fst p) (snd p)) l)
   | KDecode a => OL [ores (olist omember) (decode a); ores (olist OS) (decode_to_str a)]
   | KIntToIndex e l => ozs (int_to_index e l)
   | KStrToIndex e l => ores ozs (str_to_index e l)
